@@ -42,6 +42,9 @@ def make? (z : α) (n : Int) : Option (List α) :=
 def copyInto (dst src : List α) : List α :=
   src.take dst.length ++ dst.drop (min dst.length src.length)
 
+/-- the values of `i` in `for i := range n` (Go 1.22): 0, 1, …, n-1 (none for n ≤ 0). -/
+def rangeInt (n : Int) : List Int := (List.range n.toNat).map Int.ofNat
+
 /-- `bytes.HasPrefix(s, prefix)` -/
 def hasPrefix (s pre : Bytes) : Bool := s.take pre.length == pre
 
